@@ -438,6 +438,15 @@ def build_population(tier, seed):
             if not h["rows"]:
                 continue
             pop += history_cases(common.case_id(seed, PROP, sname, i), "%s-gen #%d" % (sname, i), h, rng, 1)
+    # ... and the crafted families of the summary check (gain/loss boundary shapes, a zero-net year, a late affiliate),
+    # each at its own summary dates in both summary modes
+    rngf = common.rng_for(seed, PROP, "c10fam")
+    for k, (fname, h, dates) in enumerate(c10.d6_family(rngf, 25 if tier == "quick" else 400)):
+        text = gen.rows_to_csv(h["rows"], gen.used_cols(h["rows"]))
+        for di, D in enumerate(dates):
+            for annual in (False, True):
+                pop.append(mk_app_case(common.case_id(seed, PROP, "c10fam", k * 10 + di * 2 + annual), "C10 family %s D=%s annual=%s" % (fname, D, annual),
+                                       [["in.csv", text]], [], secs_of(h), hist_feat(h), want=("model",), full=True, summary={"date": D, "annual": annual}))
     rng = common.rng_for(seed, PROP, "fam")
     for name, h in ledger.c04_reason_family(rng, 200 if tier == "quick" else 4000):
         pop += history_cases(common.case_id(seed, PROP, "reason", len(pop)), name, h, rng, 1)
